@@ -89,6 +89,11 @@ class CHECK(Check):
         shutil.rmtree(TMP, ignore_errors=True)
         os.makedirs(TMP)
         p_in = os.path.join(TMP, "in.dat")
+        if (len(case["content"]) + len(case["enc"])) % 5 == 0:
+            # a long path (more than 255 characters in total) is still a path
+            deep = os.path.join(TMP, "d" * 120, "e" * 120)
+            os.makedirs(deep, exist_ok=True)
+            p_in = os.path.join(deep, "in.dat")
         p_out = os.path.join(TMP, "out.dat")
         content = case["content"].encode("latin-1") if binary else case["content"]
         if case.get("names_file"):
